@@ -20,6 +20,7 @@ class UnitResult:
     error: str = ""
     seconds: float = 0.0
     solver: dict = field(default_factory=dict)
+    stopped_early: bool = False
 
     def by_status(self, st):
         return [o for o in self.obligations if o["status"] == st]
@@ -79,6 +80,8 @@ def explore(unit, props=(), max_paths=20000, serial=False) -> UnitResult:
         with ProcessPoolExecutor(max_workers=nproc) as ex:
             pending = {ex.submit(_worker, unit.module, unit.name, tuple(props), [], 1)}
             submitted = 1
+            nfail = 0
+            max_fail = int(os.environ.get("VF_MAX_FAIL", "6"))
             while pending:
                 done, pending = wait(pending, return_when=FIRST_COMPLETED)
                 for fut in done:
@@ -94,7 +97,9 @@ def explore(unit, props=(), max_paths=20000, serial=False) -> UnitResult:
                                 d[kk] = d.get(kk, 0) + vv
                     if err and not res.error:
                         res.error = err
-                    if res.error:
+                    nfail += sum(1 for o in obs if o["status"] in ("refuted", "cex-ground"))
+                    if res.error or nfail >= max_fail:
+                        res.stopped_early = nfail >= max_fail
                         continue
                     for a in alts:
                         submitted += 1
@@ -142,7 +147,7 @@ def _delta(a, b):
 def summarize(obligations):
     """group obligation instances (one per path) by name -> worst status"""
     out = {}
-    order = {"proved": 0, "unknown": 1, "refuted": 2}
+    order = {"proved": 0, "unknown": 1, "cex-ground": 2, "refuted": 3}
     for o in obligations:
         cur = out.get(o["name"])
         if cur is None:
